@@ -16,6 +16,11 @@ SPEC_FILES = ["Spec/Core.lean"]
 ASSUMPTIONS = ["the counter guard used by the model is the Lean term regenerated from the source by harness/extract.py (T2)",
                "histories are modelled as an RP that stores the reported counter after each success"]
 GRID = [0, 1, 2, 2 ** 31 - 1, 2 ** 31, 2 ** 32 - 2, 2 ** 32 - 1]
+# assertions may carry attested credential data too; these AAGUIDs continue, after a counter ending in 0xa3, the byte pattern
+# the parser's Ed25519 work-around looks for (which it must only ever look for at the key position)
+PATTERN_TAIL = bytes.fromhex("01634f4b500327206745643235353139")
+AAGUIDS = [None, None, PATTERN_TAIL, bytes(range(16))]
+PATTERN_COUNTERS = [0xa3, 0x1a3, 0x7fffffa3, 0xffffffa3, 0xa2, 0xa4]
 # the rule must not depend on anything else the authenticator data says: every legal flag combination
 FLAGSETS = [core.UP, core.UP | core.UV, core.UP | core.BE, core.UP | core.BE | core.BS, core.UP | core.UV | core.BE,
             core.UP | core.UV | core.BE | core.BS, core.UP | 0x02, core.UP | 0x20, core.UP | core.UV | 0x22]
@@ -29,8 +34,10 @@ def work(tasks, idx):
     for kind, ci, x in tasks:
         c = cs[ci]
         if kind == "pair":
-            s, cnt, fl = x
-            a, e, _ = faults.build_assertion(c, counter=cnt, stored=s, flags=fl)
+            s, cnt, fl = x[:3]
+            aag = x[3] if len(x) > 3 else AAGUIDS[(s + cnt) % len(AAGUIDS)]
+            a, e, _ = faults.build_assertion(c, counter=cnt, stored=s, flags=fl, attested_aaguid=aag,
+                                             attachment=[None, "platform", "cross-platform"][(s + cnt + fl) % 3])
             e["stored_count"] = s
             code = _auth.eval_auth(tie, res, a, e, label=["pair", s, cnt])
             expect = cnt > s or (cnt == 0 and s == 0)
@@ -51,7 +58,8 @@ def work(tasks, idx):
             counters, seq, fl = x
             pool = []
             for cnt in counters:
-                a, e, _ = faults.build_assertion(c, counter=cnt, stored=0, flags=fl)
+                a, e, _ = faults.build_assertion(c, counter=cnt, stored=0, flags=fl,
+                                                 attachment=[None, "platform", "cross-platform"][(cnt + fl) % 3])
                 pool.append((cnt, a, e))
             stored, accepted_nonzero, trail = 0, set(), []
             for i in seq:
@@ -87,6 +95,10 @@ def run(ctx, res):
         for c in GRID:
             for fl in FLAGSETS:
                 tasks.append(("pair", rng.randrange(ncreds), (s, c, fl)))
+    for cnt in PATTERN_COUNTERS:
+        for s in (cnt, cnt - 1, cnt + 1, 0):
+            for fl in FLAGSETS[:3]:
+                tasks.append(("pair", rng.randrange(ncreds), (s, cnt, fl, PATTERN_TAIL)))
     for _ in range(100 if ctx.quick() else 3000):
         s, c = rng.randrange(2 ** 32), rng.randrange(2 ** 32)
         if rng.random() < 0.3:
